@@ -27,7 +27,7 @@
 (*   window so far (and nothing was liquidated - impossible here), both sides     *)
 (*   executed the same orders (side, type, price, minute), hold the same position *)
 (*   with the same entry price and the same realised balance.                     *)
-EXTENDS SimCore
+EXTENDS SimCore, Json
 CONSTANTS K,       \* price lattice
           Chunk,   \* gcd of the route timeframes = minutes per fast-mode chunk
           TF,      \* trading timeframe in minutes (multiple of Chunk; > Chunk models a smaller data route)
@@ -105,8 +105,15 @@ SameOutcome == /\ sn.log = sf.log /\ sn.pos = sf.pos /\ sn.entry = sf.entry /\ s
 Equiv   == (pc = "compare" /\ pre = "ok") => SameOutcome
 NoErr   == sn.err = "none" /\ sf.err = "none"
 InPre   == pre = "ok"                     \* CONSTRAINT: runs outside the precondition are not extended
-\* non-vacuity probes (expected to be violated)
-NeverDiverges == pc = "compare" => SameOutcome            \* without the antecedent the simulators DO differ
-NeverTwoFills == ~(pc = "compare" /\ pre = "ok" /\ Len(sn.log) >= 2)
-NeverHookTypeDiff == ~(pc = "compare" /\ pre = "ok" /\ sn.ords # sf.ords)
+\* ---- exports for the replay into the real simulators (INVARIANT position: evaluated once per distinct state; PrintT is TRUE)
+\* every distinct chunk-end state with a shortest witness scenario
+Export   == pc = "compare" => PrintT(<<"SCEN", ToJson(hist)>>)
+\* every distinct chunk-end state in which the two simulators differ although the antecedent in force holds
+Diverge  == (pc = "compare" /\ pre = "ok" /\ ~SameOutcome) => PrintT(<<"DIVERGE", ToJson(hist)>>)
+\* ---- non-vacuity probes (each is expected to be VIOLATED)
+ProbeRestingFill == ~(pc = "compare" /\ pre = "ok" /\ \E j \in DOMAIN sn.log : sn.log[j][2] # "MARKET")
+ProbeClosedTrade == ~(pc = "compare" /\ pre = "ok" /\ sn.bal # 0)
+ProbeMarketFill  == ~(pc = "compare" /\ pre = "ok" /\ \E j \in DOMAIN sn.log : sn.log[j][2] = "MARKET")
+ProbeExitAfterGap == ~(pc = "compare" /\ pre = "ok" /\ sn.bal # 0 /\ \E j \in DOMAIN hist : hist[j].k = "feed" /\
+                         \E q \in 2..Len(hist[j].raw) : hist[j].raw[q].o # hist[j].raw[q - 1].c)
 =============================================================================
